@@ -91,13 +91,16 @@ def c05_stages(tier):
 
 
 def c06_stages(tier):
-    n = 6_000 if tier == "quick" else 60_000
+    n = 3_600 if tier == "quick" else 60_000
     return [ptfs_stage("C06", n, timeout=2400, crash_is_violation=True),
             vfsx_stage("C06", 3_000 if tier == "quick" else 40_000, name="vfs-scripted-backends", timeout=3600, core=False)]
 
 
 def c08_stages(tier):
-    st = [ptfs_stage("C08", 6_000 if tier == "quick" else 60_000, timeout=3600, crash_is_violation=True)]
+    st = [ptfs_stage("C08", 6_000 if tier == "quick" else 60_000, timeout=3600, crash_is_violation=True),
+          # validity of an inode number while references are held, under concurrent LOOKUP/FORGET: the C09 schedule explorer, smaller
+          ptfs_stage("C09", 160 if tier == "quick" else 1_500, name="concurrent-lookup-forget", core=False, timeout=1800, crash_is_violation=True,
+                     args={"stress": 2 if tier == "quick" else 20, "walks": 8})]
     if tier == "thorough":
         # the same monitors with the crate and harness built under AddressSanitizer
         st.append(ptfs_stage("C08", 2000, name="asan", kind="asan", core=False, timeout=3600, crash_is_violation=True))
@@ -307,7 +310,8 @@ PROPS = {
         "stages": c06_stages,
         "floor": 1000,
         "technique": "runtime monitoring: sentinel-tree snapshots around the export root, reply-attribute and data-token monitors, adversarial-name oracle; "
-                     "standalone and VFS-fronted passthrough, plus backend-log emptiness for rejected names with scripted backends behind the VFS",
+                     "standalone and VFS-fronted passthrough under stress from a second thread that keeps opening/closing a tagged file outside the export (descriptor-number reuse), "
+                     "plus backend-log emptiness for rejected names with scripted backends behind the VFS",
         "level_text": "An export directory sits inside a sentinel tree (siblings, a parent-level secret file with a random token, targets of absolute and relative "
                       "symlinks placed in the export). Hostile raw requests (lookups/creates/mkdir/mknod/symlink/link/unlink/rmdir/rename(2) with names '.', "
                       "'..', 'a/b', '/abs', '../x', 'x/', './x', '..\\0junk'; open/read/write/setattr/xattr/readlink on inodes of pre-existing and freshly created "
@@ -316,7 +320,8 @@ PROPS = {
                       "the host inode of a sentinel object or the token, '..' at the root must give the root, rejected names must answer EINVAL and leave "
                       "the export unchanged. A second stage drives the same bad names through the VFS over logging backends and requires empty backend logs.",
         "level_note": "With the VFS in front attr.ino is the VFS inode number, so the host-inode check applies to the standalone runs; access times are excluded "
-                      "(the snapshot itself reads the files).",
+                      "(the snapshot itself reads the files). The second thread makes a use-after-close of a descriptor number visible only probabilistically (the number "
+                      "must be re-used inside the window); the evidence counts its open/close cycles.",
         "rule": "evaluations = requests; distinct = (front, operation, rejected-name?, errno).",
         "assumptions": ["ext4 scratch directory, running as root"],
     },
@@ -325,14 +330,16 @@ PROPS = {
         "stages": c08_stages,
         "floor": 1000,
         "technique": "runtime monitoring: client-side reference-count model (entries delivered minus forgotten) compared continuously with the server's counts "
-                     "through a read-only hook, with GETATTR validity probes, number<->host-file bijection checks and a hook-free drain at the end of each history",
+                     "through a read-only hook, with GETATTR validity probes, number<->host-file bijection checks and a hook-free drain at the end of each history; "
+                     "a second stage runs the C09 schedule explorer (controlled interleavings of LOOKUP/FORGET at the yield-point hooks, sequential-model oracle)",
         "level_text": "Histories of lookup / create (new, existing, on a directory) / mkdir / mknod / symlink / link / readdirplus with small buffers (partially "
                       "delivered) / forget (single, partial, over-counted) / batch_forget / rename / unlink / rmdir over a tree with hard links, for every "
                       "inode_file_handles x use_host_ino setting. Every third step the server's count of every known inode must equal the model's; GETATTR "
                       "must succeed iff the count is positive (EBADF otherwise); one host file has one number and keeps it across forget and re-lookup; the "
                       "root survives forgets. At the end each inode is forgotten down to 1 (still valid) and then to 0 (invalid) without using the hook.",
         "level_note": "Numbers whose file lost its last name while tracked by file handle are excluded from then on (the statement excludes them; the host inode "
-                      "may be reused). Host-inode identity comes from attr.ino of the replies.",
+                      "may be reused). Host-inode identity comes from attr.ino of the replies. The histories of the first stage are sequential; validity under concurrent "
+                      "lookup/forget is what the stage concurrent-lookup-forget (signatures C09:*) observes.",
         "rule": "evaluations = history steps; distinct = (operation, configuration, number of multiply-referenced inodes).",
         "assumptions": ["ext4 scratch directory, running as root"],
     },
@@ -343,7 +350,7 @@ PROPS = {
         "technique": "runtime monitoring with schedule control: worker threads park at cfg-guarded yield points in do_lookup/forget and a controller picks who "
                      "runs next (exhaustive DFS for 2 threads, random walks for 3), sequential-model oracle; free-running stress with injected delays; TSan",
         "level_text": "2-3 threads issue lookup (through either hard-link name, each followed at once by GETATTR on the returned number), forget of the references "
-                      "the client already held, and readdirplus on one file of a real PassthroughFs. Yield points sit before the first probe, after a probe "
+                      "the client already held or of the reference the thread has just obtained, and readdirplus on one file of a real PassthroughFs. Yield points sit before the first probe, after a probe "
                       "hit, between the refcount load and the compare-exchange, before taking the map write lock, and before forget takes it - all outside "
                       "lock-held regions; a seventh point sits inside forget_one between its refcount load and its compare-exchange (write lock held) and is used "
                       "for delay injection by the stress mode only. For 2-thread programs every interleaving of these points is executed (stateless DFS); 3-thread programs get random "
